@@ -79,7 +79,9 @@ CHECKS = {
              "return; (M3/L1/L2) a licence dataflow proves that no value initialised only under a capability bit, the "
              "exact flag or Init() reaches an output, a return value, a branch condition or an index on a path that "
              "does not establish it (this is what makes an unrequested / uncapable / uninitialised query return NaN "
-             "or leave outputs untouched rather than a number).",
+             "or leave outputs untouched rather than a number); (M2c) conversely every requested output within the "
+             "capabilities is written on every normally returning path; (M6) a member bound to a conditionally written "
+             "output position is given a fresh value first (no stale third point).",
         note="NOT decided: numerical equality of the alternative evaluation paths a mask selects, arc/distance position "
              "coincidence, the stored third point. Assumes A-ENUM-UNION (masks are unions of enumerators), A-LOOP-FILL. "
              "Initialisation conditions of members are derived from the constructors/LineInit by the tool, not frozen.",
